@@ -52,6 +52,18 @@ class Qz:
         q = it.sym_value(st, adt_ty(Q), 'self')
         st.ctx.ranges[('sym', 'self.allowed')] = (Fr(1), Fr(4095))
         cc = q.get('cached_conversion')
+        opt = isinstance(cc, EnumV) and cc.path.startswith('core::option::Option')
+        if opt:
+            # the previous conversion is held as `Option<Conversion>` (`None` = no conversion yet, instead of a sentinel record)
+            if cached == 'fresh':
+                it2 = Interp(self.facts)
+                outs = [o for o in it2.run(it2.start(Q + '::new', [])) if o.status == 'returned' and isinstance(o.ret, StructV)]
+                if len(outs) != 1:
+                    raise InterpError('Quantizer::new has no single summary')
+                q.set('cached_conversion', outs[0].ret.get('cached_conversion'))
+                return q
+            cc = it.sym_value(st, adt_ty(CONV), 'self.cached_conversion')
+            q.set('cached_conversion', EnumV('core::option::Option', 1, {1: [cc]}, vnames=['None', 'Some'], targs=q.get('cached_conversion').targs))
         if cached == 'consistent':
             qq = st.ctx.sym_range('cached.q', 0, self.MAX_OCT, integer=True)
             pc = st.ctx.sym_range('cached.pc', 0, 11, integer=True)
@@ -66,6 +78,15 @@ class Qz:
                 raise InterpError('Conversion::new has no single summary')
             q.set('cached_conversion', outs[0].ret)
         return q
+
+    @staticmethod
+    def cc_of(sv):
+        """the record of the previous conversion held by a quantizer value; None when it is held as `Option::None`"""
+        x = sv.get('cached_conversion')
+        if isinstance(x, EnumV) and x.path.startswith('core::option::Option'):
+            pl = x.payload.get(1) if x.variant == 1 else None
+            return pl[0] if isinstance(pl, list) and pl and isinstance(pl[0], StructV) else None
+        return x
 
     def enabled(self, allowed, pc, ctx):
         """the term the code's bit test normalises to: ((allowed >> pc) & 1) == 1"""
@@ -166,7 +187,7 @@ def check_search_history_free(res, facts):
         res.ob('R-HYST', 'history-free search', False, 'analysis failed: %s' % e, where)
         return
     res.absorb(it)
-    cc0 = pre.get('cached_conversion')
+    cc0 = Qz.cc_of(pre)
     n = 0
     own = {Q + '::convert', Q + '::is_allowed'}
 
@@ -200,7 +221,10 @@ def check_search_history_free(res, facts):
     for o in sem_iter(outs):
         if o.status != 'returned' or not isinstance(o.ret, StructV):
             continue
-        cc1 = o.cells[cell].get('cached_conversion')
+        cc1 = Qz.cc_of(o.cells[cell])
+        if cc0 is None or cc1 is None:
+            res.ob('R-HYST', 'search outside the window is history-free', False, 'no record of the previous / this conversion in the quantizer: %r -> %r' % (cc0, cc1), where, key='R-HYST:no-record')
+            continue
         with structural():
             early = same(cc0.get('note_num'), cc1.get('note_num')) and same(cc0.get('stairstep'), cc1.get('stairstep'))
         if early:
@@ -374,8 +398,8 @@ def check_convert(res, facts, prop):
                 continue
             res.absorb(it)
             allowed = Poly.sym('self.allowed')
-            cc0 = pre.get('cached_conversion')
-            ss0 = cc0.get('stairstep').term
+            cc0 = Qz.cc_of(pre)
+            ss0 = cc0.get('stairstep').term if cc0 is not None else None
             for o in sem_iter(outs):
                 n += 1
                 inst = 'convert|%s|%s' % (cached, vname)
@@ -383,7 +407,10 @@ def check_convert(res, facts, prop):
                     res.ob('R-SUMMARY', inst, False, 'path ends with %s: %s' % (o.status, o.panic_info), where, key='R-SUMMARY:' + inst)
                     continue
                 post = o.cells[cell]
-                cc1 = post.get('cached_conversion')
+                cc1 = Qz.cc_of(post)
+                if cc1 is None:
+                    res.ob('R-RECORD', inst + '|the conversion is recorded', False, 'no record of this conversion in the quantizer afterwards: %r' % (post.get('cached_conversion'),), where, key='R-RECORD:none:' + inst)
+                    continue
                 fnn = [x for x in o.notes if x[0] == 'fnn_arg']
                 has_stub = FNN in facts.fns
                 if has_stub:
@@ -391,7 +418,7 @@ def check_convert(res, facts, prop):
                 else:
                     # the private search helper was renamed/inlined: the hysteresis path is the one that keeps note and stairstep
                     with structural():
-                        early = same(cc0.get('note_num'), cc1.get('note_num')) and same(cc0.get('stairstep'), cc1.get('stairstep'))
+                        early = cc0 is not None and same(cc0.get('note_num'), cc1.get('note_num')) and same(cc0.get('stairstep'), cc1.get('stairstep'))
                 ret = o.ret
                 # the returned record is the cached record
                 if prop == 'C19':
